@@ -71,6 +71,7 @@ type RPart struct {
 	Kind string `json:"kind"` // lit | local | pkg | inner
 	Val  string `json:"val"`
 	Name string `json:"name,omitempty"`
+	Esc  bool   `json:"esc,omitempty"` // lit: the slashes are spelled \x2f in the source (an interpreted literal with escape sequences)
 }
 
 type RRoute struct {
@@ -322,7 +323,11 @@ func GenRoutes(t *rapid.T, o *RouteOpts) *RouteSpec {
 				r.Path = append(r.Path, RPart{Kind: "inner", Name: "inner.Url", Val: "/inner_url/"})
 			default:
 				lit := []string{"/items", "/items/:id", "/with space", "/download", "/a/b/c", "/q?x=1", "/o'quote", "v2/"}[rapid.IntRange(0, 7).Draw(t, "partLit")]
-				r.Path = append(r.Path, RPart{Kind: "lit", Val: lit})
+				esc := rapid.IntRange(0, 5).Draw(t, "partEsc") == 0
+				if esc {
+					o.class("routes:escape_sequences_in_a_path_literal")
+				}
+				r.Path = append(r.Path, RPart{Kind: "lit", Val: lit, Esc: esc})
 			}
 		}
 		rs.Routes = append(rs.Routes, r)
@@ -748,7 +753,11 @@ var _, _ = authMw, logMw
 		for _, p := range r.Path {
 			switch p.Kind {
 			case "lit":
-				parts = append(parts, fmt.Sprintf("%q", p.Val))
+				q := fmt.Sprintf("%q", p.Val)
+				if p.Esc {
+					q = strings.ReplaceAll(q, "/", `\x2f`)
+				}
+				parts = append(parts, q)
 			default:
 				parts = append(parts, p.Name)
 			}
